@@ -22,7 +22,16 @@ var userKeys = []string{
 	"A", "Z/z", "0", "0/1", "-", ".", "%", "~t", "a,b", "a;b", "x?y", "a//b", "/", "//", "/a", "_", "__oxia", "__oxib/x", "_/x",
 	"s-0x", "s--", "m/n/o/p", "zz", "zz/", "zz/y",
 }
-var seqPrefixes = []string{"s", "q/x", "s-0", "t", "a/b"}
+// comparer stress (AbbreviatedKey vs Compare inside indexed batches): first segments longer than 8 bytes with a
+// later '/', the same 8-byte prefix with and without '/', segment bytes below '/' ('-', '.'), depth differences
+var stressSegs = []string{"zzzzzzzzz", "abcdefghi", "longsegment", "abcdefgh", "zzzzzzzz"}
+var stressKeys = []string{
+	"zzzzzzzzz/x", "zzzzzzzzz/y/1", "zzzzzzzzz", "zzzzzzzz/x", "zzzzzzz/x", "zzzzzzzzz-/x", "zzzzzzzzz./x", "zzzzzzzzzz/x",
+	"abcdefghi/x", "abcdefghi", "abcdefgh/i", "abcdefgh-i/x", "abcdefgh.i/x", "abcdefghij/k/l", "abcdefghi/x/y", "abcdefgh",
+	"longsegment/a", "longsegment/a/b", "longsegment", "longsegment0/a", "longsegment-/a", "longsegment./a", "longsegmen/t",
+	"a/y", "b/zzzzzzzzz/x", "y/longsegment/a", "zzzzzzzzz/~", "zzzzzzzzz/", "a", "z",
+}
+var seqPrefixes = []string{"s", "q/x", "s-0", "t", "a/b", "zzzzzzzzz/q", "longsegment/s"}
 var idxNames = []string{"a", "a-", "a0", "b"}
 var idxKeys = []string{"k", "k/1", "k/2", "m", "a", "a/b", "z", "0", "k-", "k0", "\xffx", "m n"}
 var values = []string{"", "v", "value-1", "\x00\x01\xff", "xxxxxxxxxxxxxxxxxxxxxxxxxxxxxxxx"}
@@ -103,6 +112,9 @@ func (g *gen) liveKeys() []string {
 }
 
 func (g *gen) someKey() string {
+	if g.rng.Chance(6) {
+		return hx.Pick(g.rng, stressKeys)
+	}
 	if lk := g.liveKeys(); len(lk) > 0 && g.rng.Chance(55) {
 		return hx.Pick(g.rng, lk)
 	}
@@ -271,6 +283,94 @@ func (g *gen) sameKeyBatch(w *wreq) {
 		if r, ok := g.userRange(); ok {
 			w.ranges = append(w.ranges, r)
 		}
+	}
+}
+
+// stressBatch: several puts of comparer-stressing keys, then operations that must see them through the indexed
+// batch (delete-ranges around those keys, a sequence put, conditional put/delete), all in ONE request; the same
+// shape split over two requests is the control.
+func (g *gen) stressBatch() {
+	rng := g.rng
+	seg := hx.Pick(rng, stressSegs)
+	first := &wreq{}
+	pick := func() string {
+		if rng.Chance(35) {
+			return seg + "/" + hx.Pick(rng, []string{"x", "y", "x/y", "m", "~", "-", "."})
+		}
+		return hx.Pick(rng, stressKeys)
+	}
+	seen := map[string]bool{}
+	for i, n := 0, 2+rng.Intn(4); i < n; i++ {
+		k := pick()
+		if seen[k] && rng.Chance(70) {
+			continue
+		}
+		seen[k] = true
+		p := putOp{key: k, value: []byte(hx.Pick(rng, values))}
+		if rng.Chance(15) {
+			p.idx = g.indexes()
+		}
+		if rng.Chance(10) {
+			p.sess = p64(g.sessionId())
+		}
+		first.puts = append(first.puts, p)
+	}
+	if rng.Chance(25) {
+		n := g.seqParts[seg+"/q"]
+		if n == 0 {
+			n = 1
+			g.seqParts[seg+"/q"] = 1
+		}
+		ds := make([]uint64, n)
+		for j := range ds {
+			ds[j] = uint64(1 + rng.Intn(3))
+		}
+		first.puts = append(first.puts, putOp{key: seg + "/q", value: []byte("s"), part: pstr("pk"), deltas: ds})
+	}
+	second := first
+	split := rng.Chance(35)
+	if split {
+		second = &wreq{}
+	}
+	guess := g.r.ref.lastVer + int64(len(first.puts))
+	if rng.Chance(30) && len(first.puts) > 0 {
+		k := first.puts[len(first.puts)-1].key
+		second.dels = append(second.dels, delOp{key: k, exp: hx.Pick(rng, []*int64{nil, p64(guess), p64(-1)})})
+	}
+	for i, n := 0, 1+rng.Intn(2); i < n; i++ {
+		var r rangeOp
+		switch rng.Intn(6) {
+		case 0:
+			r = rangeOp{seg + "/", seg + "/~"}
+		case 1:
+			r = rangeOp{seg + "/", seg + "//"}
+		case 2:
+			r = rangeOp{seg + "/a", seg + "/y"}
+		case 3:
+			r = rangeOp{seg, seg + "0"}
+		default:
+			r = rangeOp{pick(), pick()}
+		}
+		if r.end == "" || sweepsInternal(r.start, r.end) {
+			continue
+		}
+		second.ranges = append(second.ranges, r)
+	}
+	g.write(first)
+	if split {
+		if len(second.dels)+len(second.ranges) > 0 {
+			g.write(second)
+		}
+		g.o.Count("request:stress-split-control")
+	} else {
+		g.o.Count("request:stress-one-batch")
+	}
+	if g.r.e.disk && rng.Chance(50) {
+		g.r.do("R")
+		g.r.do("H")
+	}
+	if rng.Chance(40) {
+		g.r.do(fmt.Sprintf("L:%s:%s", hexs(seg), hexs(seg+"0")))
 	}
 }
 
@@ -461,6 +561,8 @@ func genValid(o *hx.Out, rng *hx.Rng, n int) {
 				case x < 18 && disk:
 					r.do("R")
 					o.Count("reopen")
+				case x < 30:
+					g.stressBatch()
 				default:
 					g.write(g.mixedRequest())
 				}
